@@ -100,7 +100,7 @@ func BuildTar(entries []TarEntry, format string) ([]byte, error) {
 		if e.Type == "xglobal" {
 			h.Format = tar.FormatPAX
 			h.PAXRecords = e.PAX
-			h.Name = ""
+			h.Name = e.Name // "" lets archive/tar choose its default name
 			h.Mode = 0
 			h.ModTime = time.Time{}
 		} else if len(e.PAX) > 0 {
@@ -168,6 +168,9 @@ func HostileAlphabet() []TarEntry {
 		{Name: "h", Type: "hard", Link: "../secret", Mode: 0644, Mtime: 1500000003},
 		{Name: "p", Type: "fifo", Mode: 0644, Mtime: 1500000003},
 		{Name: "../c", Type: "char", Mode: 0644, Mtime: 1500000003},
+		l("a/b", "../../top-secret"), l("a/k", "../../../top-secret"),
+		{Name: "../escaped/deeper/pax_global_header", Type: "xglobal", PAX: map[string]string{"comment": "x"}},
+		{Name: "l/sub/pax_global_header", Type: "xglobal", PAX: map[string]string{"comment": "y"}},
 	}
 }
 
@@ -308,7 +311,8 @@ func CooperatingAlphabet() []TarEntry {
 	}
 	return []TarEntry{
 		l("m", "."), l("l", "m/.."), l("sub/p", ".."), l("sub/q", "p/.."), l("k", "l/sib"),
-		d("x/"), d("sub/"), d("sib/"),
+		d("x/"), d("sub/"), d("sib/"), d("sub/q/"), d("l"), d("k/"),
+		{Name: "l/sib/esc/pax_global_header", Type: "xglobal", PAX: map[string]string{"comment": "z"}},
 		f("l/sib/pwn"), f("zz/../l/sib/pwn"), f("l/secret"), f("zz/../l/secret"), f("sub/p/x/f"), f("zz/../sub/p/x/f"), f("k/pwn2"), f("sub/q/secret"), f("./zz/../sub/q/sib/keep"),
 		d("l/sib/newdir"), d("zz/../l/sib"), d("sub/q/sib/"),
 		l("sub/p/x/l2", "../.."), l("zz/../sub/p/x/l2", "../.."), l("l/sib/l3", "../secret"), l("zz/yy/../../l/l4", "secret"),
